@@ -199,6 +199,13 @@ theorem all_spec (op : COp) (v : Profile) (l : List Profile) :
   have : cmp1 op v = evalComparison op v := funext (cmp1_spec op v)
   simp [Tern.all, this]
 
+/-- over an EMPTY set (only a sub-query can produce one) ANY is FALSE and ALL is TRUE — also for a NULL
+    left-hand side: the expansions have no term that could be UNKNOWN -/
+theorem any_empty (op : COp) (v : Profile) : evalAny op v [] = .F := by rw [any_spec]; rfl
+theorem all_empty (op : COp) (v : Profile) : evalAll op v [] = .T := by rw [all_spec]; rfl
+theorem in_empty (v : Profile) : evalIn false v [] = .F ∧ evalIn true v [] = .T :=
+  ⟨any_empty .eq v, all_empty .ne v⟩
+
 theorem in_eq_any (v : Profile) (l : List Profile) : evalIn false v l = evalAny .eq v l := rfl
 theorem notin_eq_all (v : Profile) (l : List Profile) : evalIn true v l = evalAll .ne v l := rfl
 
